@@ -1,6 +1,7 @@
 package eng
 
 import (
+	_ "embed"
 	"go/constant"
 	"go/token"
 	"go/types"
@@ -169,8 +170,54 @@ func AnyV(ssa.Value) bool { return true }
 func Param(name string) VM {
 	return func(v ssa.Value) bool {
 		p, ok := Strip(v).(*ssa.Parameter)
-		return ok && p.Name() == name
+		if !ok {
+			return false
+		}
+		return paramRefName(p) == name
 	}
+}
+
+//go:embed reference_params.txt
+var referenceParams string
+
+var refParams map[string][]string
+
+// paramRefName returns the name the parameter had on the reference tree (the rule tables name parameters as they were
+// called there): the i-th parameter of a function that exists on the reference tree with the same number of parameters
+// answers to the i-th reference name, whatever it is called now — renaming a parameter changes nothing for the rules.
+// Functions that are new, or whose parameter list changed, answer with the current names.
+func paramRefName(p *ssa.Parameter) string {
+	if refParams == nil {
+		refParams = map[string][]string{}
+		for _, l := range strings.Split(referenceParams, "\n") {
+			if l == "" || strings.HasPrefix(l, "#") {
+				continue
+			}
+			kv := strings.SplitN(l, "\t", 2)
+			if len(kv) != 2 {
+				continue
+			}
+			if kv[1] == "" {
+				refParams[kv[0]] = []string{}
+			} else {
+				refParams[kv[0]] = strings.Split(kv[1], ",")
+			}
+		}
+	}
+	fn := p.Parent()
+	if fn == nil {
+		return p.Name()
+	}
+	names, ok := refParams[ir.FuncKey(fn)]
+	if !ok || len(names) != len(fn.Params) {
+		return p.Name()
+	}
+	for i, q := range fn.Params {
+		if q == p {
+			return names[i]
+		}
+	}
+	return p.Name()
 }
 
 // Same matches exactly the given value (after stripping both).
